@@ -53,6 +53,8 @@ def gen(args):
              "cell": [] if cellarg is None else [int(v) for v in cell], "sq": [], "sqT": [], "dq": [], "maha": [], "L": [],
              "raised": False, "scale": s, "lmul": []}
         Xf, Yf = X / s, Y / s
+        if cellarg is not None and (t + nx) % 3 == 0:
+            cellarg = [float(v) for v in cellarg]          # the cell as a plain list of numbers
         try:
             if kind == "baddim":
                 bad = np.ones(dim + int(rng.choice([-1, 1, 2])) if dim > 1 else dim + 1)
